@@ -73,8 +73,11 @@ def make_shards(tier, ops=None, regimes=("R1", "R3"), typed=True, prefix=""):
                     others = [None]
                     if op in ("add_tree", "tree_copy_to"):
                         if regime == "R3":
-                            continue
-                        others = OTHER_SHAPES if n <= 2 else OTHER_SHAPES[:3]
+                            if n > 1:
+                                continue
+                            others = [(-1,), (-1, -1)]  # equal data under different ids in source and target
+                        else:
+                            others = OTHER_SHAPES if n <= 2 else OTHER_SHAPES[:3]
                     for o in others:
                         d = {"name": "%s%s-%s-%s" % (prefix, op, regime, shape_str(sh)), "op": op, "shape": list(sh), "regime": regime}
                         if o is not None:
